@@ -21,14 +21,16 @@ func newRanger(first, last int) *ranger {
 	return &ranger{next: first, last: last, done: first > last}
 }
 
-// String keeps the iterator's address out of anything that prints it
-// (an iterator inside a collection, an error message naming an argument):
-// the address differs from one execution to the next.
-func (r *ranger) String() string {
+// Format keeps the iterator's address out of anything that prints it with
+// package fmt (an iterator inside a collection, an error message naming an
+// argument): the address differs from one execution to the next. It is not
+// a String method: an output tag whose value is an iterator prints nothing.
+func (r *ranger) Format(f fmt.State, verb rune) {
 	if r.done {
-		return "range()"
+		fmt.Fprint(f, "range()")
+		return
 	}
-	return fmt.Sprintf("range(%d..%d)", r.next, r.last)
+	fmt.Fprintf(f, "range(%d..%d)", r.next, r.last)
 }
 
 // Next returns the next number in the Range or nil
